@@ -7,9 +7,9 @@ from .pandas_common import *
 from . import values as V
 
 FUNCS = ['pyg_base._pandas:_df_fillna', 'pyg_base._pandas:df_fillna', 'pyg_base._pandas:_nona', 'pyg_base._pandas:nona', 'pyg_base._types:is_series', 'pyg_base._types:is_arr']
-BOUNDS = dict(vectors = 'float Series and 1-d arrays of length 0..4 (thorough 5): which cells are NaN and the values of the others are symbolic (so leading, trailing, interior runs, all-NaN are solver cases)',
+BOUNDS = dict(frames = 'two-column frames and 2-d arrays of 0..2 rows (thorough 3), same methods', vectors = 'float Series and 1-d arrays of length 0..4 (thorough 5): which cells are NaN and the values of the others are symbolic (so leading, trailing, interior runs, all-NaN are solver cases)',
               methods = 'ffill, bfill, a symbolic numeric constant, nona, fnna, ffill_na, ffill_0 and every ordered pair of them', limit = '{None, 1, 2} for ffill / bfill')
-OUTSIDE = ['2-d frames and axis (no DataFrame model)', 'interpolation methods', 'limit with a numeric method (pandas fills the first `limit` NaNs; the statement is silent)', 'vectors longer than 5']
+OUTSIDE = ['frames with more than two columns, axis = 1', 'interpolation methods', 'limit with a numeric method (pandas fills the first `limit` NaNs; the statement is silent)', 'vectors longer than 5']
 ASSUMPTIONS = ['pandas replaced by the minipd model (ffill/bfill/fillna with limit, last_valid_index, masks, label slices), validated against the real pandas on all NaN patterns of length <= 3 x limits each run',
                'arrays are modelled by a list-backed stand-in for ndarray; floats are extended reals']
 
@@ -85,6 +85,48 @@ def h_nona(n, array):
         c.check('nona-removes-exactly-the-nan-rows', len(got) == len(want) and all((array or g[0] == w[0]) and feq(g[1], w[1]) for g, w in zip(got, want)))
     return h
 
+def mkframe(c, cols, labels):
+    if c.mode == 'sym': return minipd.DataFrame({k: list(v) for k, v in cols.items()}, index = list(labels))
+    import pandas as rpd
+    return rpd.DataFrame({k: [float(x) for x in v] for k, v in cols.items()}, index = rpd.DatetimeIndex(list(labels)), dtype = float)
+def frame_rows(f):
+    """[(label, (cells...))] of a minipd or real frame"""
+    if isinstance(f, minipd.DataFrame): return [(t, tuple(f._c[c][i] for c in f._cols)) for i, t in enumerate(f._i._l)], list(f._cols)
+    return [(t.to_pydatetime(), tuple(float(x) for x in row)) for t, row in zip(f.index, f.values)], list(f.columns)
+
+def h_fill2d(n, methods, limit, array):
+    """two-column frames (and 2-d arrays): every fill acts column by column; nona / fnna look at whole rows"""
+    def h(c):
+        Pm = P()
+        ts = sorted_stamps(c, 't', n, gap_days = 3)
+        cols = dict(a = [value(c, 'a%d' % i) for i in range(n)], b = [value(c, 'b%d' % i) for i in range(n)])
+        const = c.float('const', allow = (core.FIN,), halves = 40)
+        arg_methods = [const if m == 'const' else m for m in methods]
+        if n: c.cover('columns-end-on-different-rows', X.And(isn(cols['a'][-1]), X.Not(isn(cols['b'][-1]))))
+        if array: src = minipd.Arr2([[cols['a'][i], cols['b'][i]] for i in range(n)], 2) if c.mode == 'sym' else __import__('numpy').array([[float(cols['a'][i]), float(cols['b'][i])] for i in range(n)], dtype = float).reshape(n, 2)
+        else: src = mkframe(c, cols, ts)
+        r = Pm.df_fillna(src, arg_methods if len(arg_methods) > 1 else arg_methods[0], limit = limit)
+        # oracle: column-wise for the fills; row-wise for nona / fnna
+        cells = {k: list(zip(ts, v)) for k, v in cols.items()}; keep = list(range(n))
+        for m in methods:
+            if m in ('nona', 'fnna'):
+                alln = [X.And([isn(cells[k][p][1]) for k in cells]) for p in range(len(keep))]
+                if m == 'nona': sel = [p for p in range(len(keep)) if not alln[p]]
+                else:
+                    q = 0
+                    while q < len(keep) and alln[q]: q += 1
+                    sel = list(range(q, len(keep)))
+                cells = {k: [v[p] for p in sel] for k, v in cells.items()}; keep = [keep[p] for p in sel]
+            else:
+                cells = {k: apply(m, v, limit, const) for k, v in cells.items()}
+        want = [(ts[i], (cells['a'][p][1], cells['b'][p][1])) for p, i in enumerate(keep)]
+        if array:
+            got = [(None, tuple(row)) for row in (r._r if isinstance(r, minipd.Arr2) else r.tolist())]
+        else:
+            got, names = frame_rows(r); c.check('columns-kept', names == ['a', 'b'])
+        c.check('fills-or-drops-exactly-the-missing-cells-2d', len(got) == len(want) and all((array or g[0] == w[0]) and feq(g[1][0], w[1][0]) and feq(g[1][1], w[1][1]) for g, w in zip(got, want)))
+    return h
+
 def obligations(tier):
     q = tier == 'quick'; N = 4 if q else 5
     S = setup_pandas
@@ -96,6 +138,13 @@ def obligations(tier):
                 obs.append(Ob('fill.%s.limit-%s.%d' % (m, limit, n), h_fill(n, [m], limit, False), setup = S, budget_s = 300 if n < 5 else 1500, desc = 'df_fillna(Series of %d, %s, limit=%s)' % (n, m, limit)))
             if n <= 3 or not q: obs.append(Ob('array.%s.%d' % (m, n), h_fill(n, [m], None, True), setup = S, budget_s = 300, desc = 'df_fillna(1-d array of %d, %s) == values of the Series result, input unchanged' % (n, m)))
         obs.append(Ob('nona.series.%d' % n, h_nona(n, False), setup = S, desc = 'nona(Series of %d)' % n)); obs.append(Ob('nona.array.%d' % n, h_nona(n, True), setup = S, desc = 'nona(array of %d)' % n))
+    for n in range(0, 3 if q else 4):
+        for m in METHODS:
+            for limit in ((None, 1) if m in ('ffill', 'bfill') else (None,)):
+                obs.append(Ob('frame.%s.limit-%s.%d' % (m, limit, n), h_fill2d(n, [m], limit, False), setup = S, budget_s = 300 if q else 1500, desc = 'df_fillna(two-column frame of %d rows, %s, limit=%s)' % (n, m, limit)))
+            if m in ('ffill', 'nona', 'ffill_na', 'const'): obs.append(Ob('array2d.%s.%d' % (m, n), h_fill2d(n, [m], None, True), setup = S, budget_s = 300 if q else 1500, desc = 'df_fillna(2-d array of %d rows, %s) == values of the frame result' % (n, m)))
+    for pair in [('ffill', 'nona'), ('bfill', 'fnna'), ('const', 'nona'), ('ffill_na', 'const')]:
+        obs.append(Ob('frame.sequence.%s+%s' % pair, h_fill2d(2 if q else 3, list(pair), None, False), setup = S, budget_s = 300 if q else 1500, desc = 'method list %s on a two-column frame' % (list(pair),)))
     for m1 in METHODS:
         for m2 in METHODS:
             if m1 == m2: continue
